@@ -126,7 +126,8 @@ fn exact_phase(thorough: bool) -> Phase {
 const RICH_COEF: [f64; 10] = [0.0, 1.0, -1.0, 0.1, -0.3333333333333333, 3.141592653589793, -2.5e-3, 7.25e5, -1e6, 1e-9];
 const RICH_ARGS: [f64; 26] = [0.0, 0.1, -0.1, 0.3333333333333333, -0.3333333333333333, 0.999999, -0.999999, 1.000001, 2.5, -2.5, 7.3, -7.3, 1e3, -1e3, 1e-3, -1e-3, 1.0, -1.0,
     1e5, -3e6, 2.5e7, 1e-5, -3e-7, 65536.0, 1.0000000000000002, -0.9999999999999999];
-const LOG_ARGS: [f64; 14] = [1.0, 0.5, 2.0, 7.0, 1e-3, 1e3, 0.999999, 1.0000000000000002, 1e-300, 1e300, 2.718281828459045, 5e-324, 1e-310, f64::MAX];
+const LOG_ARGS: [f64; 20] = [1.0, 0.5, 2.0, 7.0, 1e-3, 1e3, 0.999999, 1.0000000000000002, 1e-300, 1e300, 2.718281828459045, 5e-324, 1e-310, f64::MAX,
+    1.000000001, 0.9999999997, 1.000000000001, 1.000000005, 1.0007, 0.9995];
 
 struct Tables {
     // term[xi][lane][ci] = c * x^lane exactly, and its magnitude
@@ -276,7 +277,7 @@ fn log_phase(thorough: bool) -> Phase {
         }),
         classes: vec![("v<1", true), ("v=1", true), ("v>1", true)],
         bounds: json!({"forms": "Log<Poly0..Poly8>", "coefficients": format!("cube over the first w of the rich coefficient values: w=10 up to degree 4, w={} above", if thorough {6} else {4}),
-            "arguments": "v in {1,0.5,2,7,1e-3,1e3,0.999999,1+2^-52,1e-300,1e300,e,5e-324 (subnormal),1e-310 (subnormal),MAX}", "oracle": "L=ln v as f64; exact value at L; bound = evaluation bound + 2 ulp(L) * sum i|c_i||L|^(i-1)"}),
+            "arguments": "v in {1,0.5,2,7,1e-3,1e3,0.999999,1+2^-52,1e-300,1e300,e,5e-324 (subnormal),1e-310 (subnormal),MAX,1+1e-9,1-3e-10,1+1e-12,1+5e-9,1.0007,0.9995}", "oracle": "L=ln v as f64; exact value at L; bound = evaluation bound + 2 ulp(L) * sum i|c_i||L|^(i-1)"}),
     }
 }
 
